@@ -159,8 +159,9 @@ def _good_kwargs(rng, fmt, regions):
         if rng.chance(0.3):
             kw['radunit'] = rng.pick(['deg', 'arcsec', 'arcmin'])
     elif fmt == 'fits':
-        if rng.chance(0.25):
-            kw['header'] = {'t': 'dict', 'v': [['EXTNAME', 'REGION'],
+        if rng.chance(0.3):
+            ext = 'REGION' if rng.chance(0.6) else 'MYEXT'
+            kw['header'] = {'t': 'dict', 'v': [['EXTNAME', ext],
                                                ['OBSERVER', 'verif'],
                                                ['NUMBER', 7]]}
     return kw
@@ -285,8 +286,8 @@ def gen_plan(seed, index, tier='quick'):
                 cfg_rng.weighted([('default', 3), ('error', 1)]),
         'encoding': cfg_rng.weighted([('utf-8', 3), ('ascii', 1),
                                       ('latin-1', 1)]),
-        'path_style': cfg_rng.weighted([('abs', 2), ('dotdot', 1),
-                                        ('rel', 1)]),
+        'path_style': cfg_rng.weighted([('abs', 4), ('dotdot', 2),
+                                        ('rel', 2), ('tilde', 1)]),
     }
     nsteps = cfg_rng.weighted([(1, 3), (2, 3), (3, 2), (4, 2)])
     steps = []
@@ -393,6 +394,11 @@ class Run:
             return os.path.join(root, rel)
         if style == 'dotdot':
             return os.path.join(root, 'sub', '..', rel)
+        if style == 'tilde':
+            # "~/name" with HOME pointing at the run disk (the text writers
+            # do not expand "~", astropy's FITS writer does)
+            return '~/' + rel if root == self.disk else \
+                os.path.join(root, rel)
         # rel: relative to cwd (= disk)
         return os.path.relpath(os.path.join(root, rel), os.getcwd())
 
@@ -464,6 +470,7 @@ class Run:
         with open(os.path.join(self.disk, 'bystander.reg'), 'wb') as fh:
             fh.write(TEXT)
         cwd = os.getcwd()
+        os.environ['HOME'] = self.disk
         os.chdir(self.disk)
         try:
             last = snapshot(self.disk)
@@ -512,6 +519,11 @@ class Run:
         dest_rel = os.path.normpath(step['dest'])
         dest_path = self.path(step['dest'])
         existed = os.path.lexists(os.path.join(self.disk, dest_rel))
+        if self.cfg['path_style'] == 'tilde' and step['fmt'] != 'fits':
+            # the text writers document plain file names and do not expand
+            # "~": for them "~/name" is a relative path below a directory
+            # called "~", which does not exist
+            existed = os.path.lexists(dest_path)
         dest_before = before.get(dest_rel)
         trace = []
         outcome, wrec = self.call_write(step, dest_path, trace)
@@ -572,6 +584,17 @@ class Run:
                 f'destination existed ({dest_before}) and overwrite='
                 f'{step["overwrite"]!r}, yet write() returned; disk changes: '
                 + '; '.join(_describe_change(c) for c in changes))
+        # W1 (path-interpretation independent): without overwrite=True no
+        # entry that existed before the call may be modified or removed,
+        # however the writer chose to interpret the name it was given
+        if not step['overwrite']:
+            clobbered = [c for c in changes if c[1] is not None]
+            if clobbered and not refuse:
+                self.violation(
+                    'W1-clobber', i, step,
+                    f'overwrite={step["overwrite"]!r}, yet write() returned '
+                    f'after modifying existing entries: '
+                    + '; '.join(_describe_change(c) for c in clobbered))
         # W3: only the destination (or what it links to) may change
         allowed = {dest_rel}
         if dest_before and dest_before[0] == 'link':
@@ -590,7 +613,9 @@ class Run:
                            f'after a successful write the destination is '
                            f'not a regular file: {after.get(dest_rel)}')
             return after
-        self.readback(i, step, dest_rel, dest_path)
+        self.readback(i, step, dest_rel,
+                      os.path.join(self.disk, dest_rel)
+                      if self.cfg['path_style'] == 'tilde' else dest_path)
         if self.probe_rng.random() < 0.1:
             self.probe_diskfull(step, os.path.getsize(full))
         after2 = snapshot(self.disk)
@@ -655,6 +680,14 @@ class Run:
     def readback(self, i, step, dest_rel, dest_path):
         from regions import Regions
         fmt = step['fmt']
+        hdr = step['kwargs'].get('header')
+        if isinstance(hdr, dict) and ['EXTNAME', 'REGION'] not in hdr.get(
+                'v', [['EXTNAME', 'REGION']]):
+            # the caller named the extension otherwise: such a file is not
+            # meant to be found by Regions.read (later default writes are)
+            self.stats['readback_skipped_custom_extname'] = \
+                self.stats.get('readback_skipped_custom_extname', 0) + 1
+            return
         ref = self.reference(step)
         if ref is None:
             self.stats['ref_unavailable'] += 1
